@@ -9,6 +9,7 @@ import (
 	"errors"
 	"fmt"
 	mrand "math/rand"
+	"strings"
 	"sync"
 
 	"filippo.io/age"
@@ -209,11 +210,22 @@ func (w *World) Bind(e *eval.Env, id string) {
 // ---------------------------------------------------------------- custom recipients of the model
 
 // GreaseRecipient produces a stanza of a type no identity knows.
-type GreaseRecipient struct{}
+// Long: the stanza's first line is longer than any line buffer (one argument of 5000 characters, then a hundred short
+// ones) and its body has several lines; the format sets no limit on either.
+type GreaseRecipient struct{ Long bool }
 
-func (GreaseRecipient) Wrap(fileKey []byte) ([]*age.Stanza, error) {
+func (g GreaseRecipient) Wrap(fileKey []byte) ([]*age.Stanza, error) {
 	b := make([]byte, 7)
 	rand.Read(b)
+	if g.Long {
+		args := []string{strings.Repeat("x", 5000)}
+		for i := 0; i < 100; i++ {
+			args = append(args, fmt.Sprintf("a%d", i))
+		}
+		b = make([]byte, 48*3+5)
+		rand.Read(b)
+		return []*age.Stanza{{Type: "grease", Args: args, Body: b}}, nil
+	}
 	return []*age.Stanza{{Type: "grease", Args: []string{"arg"}, Body: b}}, nil
 }
 
